@@ -638,6 +638,9 @@ type Listener struct {
 	attempts  int
 	// OwnClosedErr: Accept on the closed listener fails with an error that is not net.ErrClosed.
 	OwnClosedErr bool
+	// FatalAt > 0: the FatalAt-th Accept attempt (1-based) and every later one fail with an error
+	// that is neither temporary nor a timeout (the process ran out of descriptors for good, say).
+	FatalAt int
 }
 
 //go:norace
@@ -654,7 +657,9 @@ type acceptOp struct {
 }
 
 //go:norace
-func (o *acceptOp) Ready(now time.Time) bool { return o.l.closed || len(o.l.backlog) > 0 }
+func (o *acceptOp) Ready(now time.Time) bool {
+	return o.l.closed || len(o.l.backlog) > 0 || (o.l.FatalAt > 0 && o.l.attempts+1 >= o.l.FatalAt)
+}
 
 //go:norace
 func (o *acceptOp) Deadline() time.Time { return time.Time{} }
@@ -671,6 +676,11 @@ func (o *acceptOp) Done(now time.Time) {
 		return
 	}
 	l.attempts++
+	if l.FatalAt > 0 && l.attempts >= l.FatalAt {
+		o.err = &opErr{"accept tcp 10.0.0.1:53: accept4: too many open files in system"}
+		l.n.K.BumpLocked("fault.accept_fatal_error")
+		return
+	}
 	for _, t := range l.Transient {
 		if t == l.attempts-1 {
 			o.err = ErrTransient
